@@ -170,7 +170,12 @@ def run_tlc(module, cfg_text, spec_dirs, workers=None, simulate=None, depth=None
                  or "Fatal" in res.stdout and "Finished" not in res.stdout)
         if fatal or (p.returncode not in (0, 12, 13) and res.violated is None
                      and not res.postcondition_failed and simulate is None):
-            tail = "\n".join(res.stdout.splitlines()[-40:])
+            lines = res.stdout.splitlines()
+            first = [i for i, l in enumerate(lines) if l.startswith("Error:")]
+            if first:
+                tail = "\n".join(lines[first[0]:first[0] + 25])
+            else:
+                tail = "\n".join(lines[-40:])
             raise TLCError(f"TLC failed on {module} (rc={p.returncode}):\n{tail}")
         return res
     finally:
